@@ -890,6 +890,11 @@ def count_rounds_up(repo: Repo) -> RuleRun:
         if isinstance(e, ast.BinOp) and isinstance(e.op, ast.Add):
             for a, b in ((e.left, e.right), (e.right, e.left)):
                 if isinstance(b, ast.Constant) and b.value == 1 and isinstance(a, ast.Call) and (attr_chain(a.func) or "").split(".")[-1] in ("int", "floor", "trunc"):
+                    inner = a.args[0] if a.args else None
+                    if isinstance(inner, ast.Name) and depth < 3 and len(defs.get(inner.id, [])) == 1:
+                        inner = defs[inner.id][0]
+                    if isinstance(inner, ast.Call) and (attr_chain(inner.func) or "").split(".")[-1] in ("round", "rint", "around", "ceil"):
+                        return "over", e  # rounded (to nearest / up) first and then incremented: one cell too many
                     return "up", e
         if nm == "ceil":
             return "up", e
@@ -937,8 +942,13 @@ def count_rounds_up(repo: Repo) -> RuleRun:
                 kind == "up",
                 fn,
                 f"result #{k} '{ast.unparse(st.value)[:50]}' rounds up",
-                f"{fn.name} returns '{ast.unparse(at)[:70]}': the real number of cells is truncated / rounded down instead of up (its sibling results are int(x) + 1), so for every non-integer quotient "
-                "one cell fewer than needed is made and the cells are larger than the requested size - e.g. Chop(start_size=0.3, end_size=0.3).calculate(1) gives 3 cells of 0.333",
+                (
+                    f"{fn.name} returns '{ast.unparse(at)[:70]}': the real number of cells is rounded first and then incremented (its sibling results are int(x) + 1): whenever the fractional part is 0.5 or more "
+                    "the chop gets one cell more than the next whole cell, and the reversed chop (which lands on the other side of .5) a different count and a non-reciprocal expansion"
+                    if kind == "over"
+                    else f"{fn.name} returns '{ast.unparse(at)[:70]}': the real number of cells is truncated / rounded down instead of up (its sibling results are int(x) + 1), so for every non-integer quotient "
+                    "one cell fewer than needed is made and the cells are larger than the requested size - e.g. Chop(start_size=0.3, end_size=0.3).calculate(1) gives 3 cells of 0.333"
+                ),
                 st,
                 key=f"result#{k}",
             )
@@ -950,4 +960,161 @@ def count_rounds_up(repo: Repo) -> RuleRun:
 count_rounds_up.rule_id = "C03.COUNT-ROUNDS-UP"
 
 
-RULES = [registry_agreement, closure, invert_complete, validation_siblings, dimensions, bracket_siblings, unit_ratio_tests, copy_well_posed, no_stale_lazy_cache, reject_not_repair, no_memo, solver_tolerance, no_rounding, ratio_rejection, count_rounds_up]
+# --------------------------------------------------------------------------------------------
+def count_integral(repo: Repo) -> RuleRun:
+    """'the computed cell count is an integer >= 1': whatever number the user hands in as count (a quotient length / size is a
+    float), Chop stores the whole number of cells that is written - the relations then solve for exactly that count. Abstract
+    run of Chop.__post_init__."""
+    r = RuleRun(PROP, "C03.COUNT-INTEGRAL", floor=5, what="Chop.__post_init__ stores count as a whole number >= 1 (float counts truncated, non-positive ones raised to 1)")
+    cls = repo.cls("grading.chop.Chop")
+    fn = repo.find_method(cls, "__post_init__")
+    r.require(fn is not None, "Chop.__post_init__ vanished")
+    for given, want in ((7.9, 7), (3, 3), (1.0, 1), (0, 1), (-5, 1), (12.0, 12)):
+        chop = Obj("chop", cls=cls)
+        for fld in ("start_size", "end_size", "c2c_expansion", "total_expansion"):
+            chop.set(fld, None)
+        chop.set("count", given)
+        chop.set("length_ratio", 1.0)
+        chop.set("preserve", "c2c_expansion")
+        ev = Evaluator(repo=repo, module=fn.module)
+        ev.float_arith = True
+
+        def hook(ev_, call, name):
+            nm = (name or "").split(".")[-1]
+            if nm == "int" and len(call.args) == 1:
+                v = ev_.eval(call.args[0])
+                if isinstance(v, (int, float)) and not isinstance(v, bool):
+                    return int(v)
+            if nm in ("max", "min") and len(call.args) == 2:
+                a, b = ev_.eval(call.args[0]), ev_.eval(call.args[1])
+                if all(isinstance(x, (int, float)) and not isinstance(x, bool) for x in (a, b)):
+                    return max(a, b) if nm == "max" else min(a, b)
+            if nm == "dict":
+                return {}
+            return NO_MATCH
+
+        ev.call_hook = hook
+        try:
+            ev.call_funcinfo(fn, [chop])
+        except (Raised, NotEvaluable) as err:
+            raise AnalysisError(f"Chop.__post_init__ not evaluable with count={given!r}: {err}") from err
+        got = chop.get("count")
+        r.check(
+            isinstance(got, int) and not isinstance(got, bool) and got == want,
+            fn,
+            f"count={given!r} stored as {want}",
+            f"Chop(count={given!r}) stores count = {got!r} ({type(got).__name__}); expected the whole number {want}: a fractional count is used as it is inside the relations (sizes and ratios are solved for "
+            f"{got!r} cells) while a whole number of cells is written - the written count and expansion do not reproduce the requested size",
+            fn.node,
+            key=f"count={given!r}",
+        )
+    return r
+
+
+count_integral.rule_id = "C03.COUNT-INTEGRAL"
+
+
+# --------------------------------------------------------------------------------------------
+def shortcut_exact(repo: Repo) -> RuleRun:
+    """'... they reproduce the parameters that were given': a relation that finds its result as the root of a function it defines
+    itself (fexp) may return early with a closed form for special inputs - that closed form must be a root of the same function.
+    The relations are run over exact rational inputs (count 2, 3, 4; sizes 1/5, 1/3, 2/5 of the length); whenever they return
+    without calling the root finder and the value is not the uniform ratio 1, the relation's own residual function is evaluated
+    exactly at that value and must vanish."""
+    from fractions import Fraction
+
+    from .. import exact
+
+    r = RuleRun(PROP, "C03.SHORTCUT-EXACT", floor=12, what="every closed-form early return of a root-finding relation is an exact root of the relation's own residual function (exact rational evaluation)")
+    n = 0
+    for fn in relation_functions(repo):
+        inner = [st for st in fn.node.body if isinstance(st, ast.FunctionDef)]
+        if not fn.name.startswith("get_c2c_expansion__") or len(inner) != 1 or len(inner[0].args.args) != 1:
+            continue
+        resid = inner[0]
+        rets = [st for st in resid.body if isinstance(st, ast.Return)]
+        r.require(len(rets) == 1 and rets[0].value is not None, f"{fn.name}: the residual function {resid.name} is not a single return")
+        for count in (2, 3, 4):
+            for size in (Fraction(1, 5), Fraction(1, 3), Fraction(2, 5)):
+                args = {"length": exact.c(1), "count": count}
+                size_name = [p for p in fn.params if p.endswith("_size")]
+                if len(size_name) != 1:
+                    continue
+                args[size_name[0]] = exact.c(size)
+                reached = {"root": False}
+
+                def hook(ev, call, name, reached=reached):
+                    nm = (name or "").split(".")[-1]
+                    if nm == "brentq":
+                        reached["root"] = True
+                        return Sym("root")
+                    if nm == "eval" and len(call.args) == 1:
+                        txt = ev.eval(call.args[0])
+                        if isinstance(txt, str):
+                            return bool(eval(compile(ast.parse(txt, mode="eval"), "<cond>", "eval"), {"__builtins__": {}}))
+                    if nm == "isinstance":
+                        return True
+                    if nm == "float" and len(call.args) == 1:
+                        v = ev.eval(call.args[0])
+                        if isinstance(v, str):
+                            return float(v)
+                    return NO_MATCH
+
+                ev = exact.evaluator(repo, fn.module, extra=hook)
+                inner_binop = ev.binop_hook
+
+                def binop_(op, a, b, reached=reached, inner_binop=inner_binop):
+                    try:
+                        return inner_binop(op, a, b)
+                    except NotEvaluable:
+                        if isinstance(op, ast.Pow):
+                            reached["root"] = True  # an irrational bracket end: the relation is on its root-finding path
+                        raise
+
+                ev.binop_hook = binop_
+                try:
+                    got = ev.call_funcinfo(fn, [args[p] for p in fn.params])
+                except Raised:
+                    continue  # rejected input
+                except NotEvaluable as err:
+                    if reached["root"]:
+                        n += 1
+                        r.ok(fn, f"count={count}, {size_name[0]}={size}: solved by the root finder", key=f"{count}:{size}")
+                        continue
+                    raise AnalysisError(f"{fn.name}(count={count}, {size_name[0]}={size}) not evaluable over exact rationals: {err}") from err
+                if reached["root"] or isinstance(got, Sym):
+                    n += 1
+                    r.ok(fn, f"count={count}, {size_name[0]}={size}: solved by the root finder", key=f"{count}:{size}")
+                    continue
+                val = exact.value(got) if isinstance(got, exact.Rat) else got
+                if val == 1:
+                    n += 1
+                    r.ok(fn, f"count={count}, {size_name[0]}={size}: uniform", key=f"{count}:{size}")
+                    continue
+                ev2 = exact.evaluator(repo, fn.module, extra=hook)
+                ev2.env = dict(args)
+                ev2.env[resid.args.args[0].arg] = got if isinstance(got, exact.Rat) else exact.c(Fraction(got))
+                ev2.mod_stack = [fn.module]
+                try:
+                    res = ev2.eval(rets[0].value)
+                except (Raised, NotEvaluable) as err:
+                    raise AnalysisError(f"{fn.name}: residual {resid.name} not evaluable at the closed-form result {val}: {err}") from err
+                n += 1
+                resv = exact.value(res) if isinstance(res, exact.Rat) else res
+                r.check(
+                    resv == 0,
+                    fn,
+                    f"count={count}, {size_name[0]}={size}: closed form {val} is a root of {resid.name}",
+                    f"{fn.name}(length=1, count={count}, {size_name[0]}={size}) returns the closed form {val} without root finding, but the relation's own residual {resid.name}({val}) = {resv} is not 0: "
+                    f"with that ratio {count} cells do not fill the edge with the requested {size_name[0].replace('_', ' ')} (for the last-cell size the two-cell ratio is the reciprocal of the first-cell one)",
+                    fn.node,
+                    key=f"{count}:{size}",
+                )
+    r.require(n >= 12, f"only {n} exact scenarios of root-finding relations examined")
+    return r
+
+
+shortcut_exact.rule_id = "C03.SHORTCUT-EXACT"
+
+
+RULES = [registry_agreement, closure, invert_complete, validation_siblings, dimensions, bracket_siblings, unit_ratio_tests, copy_well_posed, no_stale_lazy_cache, reject_not_repair, no_memo, solver_tolerance, no_rounding, ratio_rejection, count_rounds_up, count_integral, shortcut_exact]
